@@ -1939,9 +1939,9 @@ public:
     if (vecElementL.size() == 1) return vecElementL[0];
     std::vector<T> v;
     if (vecElementL.size() == 0) return v;
-    for (auto it : vecElementL[0])
+    for (const auto& vec : vecElementL)
     {
-      v.push_back(it);
+      v.insert(v.end(), vec.begin(), vec.end());
     }
     return v;
   }
